@@ -177,6 +177,24 @@ def run(ctx, prop):
             r = b["rec"]
             ctx.violation("AuditNewline", "audit record line parses differently with its trailing newline: %r (errors %s / %s)"
                           % (r["line"][:300], r["err1"], r["err2"]), {"kind": "audit-line", "line": r["line"]})
+    if prop == "C06":
+        # "... this node's name and machine ID": three short runs of the built daemon (NODE_NAME set / empty / unset)
+        from checks import pipeline
+        binp = pipeline.build_daemon(ctx)
+        ttp = ctx.path("trace-target.ndjson")
+        with open(ttp, "w") as f:
+            for i, envv in enumerate(("verif-node-7", "", None)):
+                f.write(json.dumps(pipeline.run_target_probe(ctx, binp, i, envv)) + "\n")
+        tbad, _, _ = validate(ctx, ttp, "target", parts=1)
+        for b in tbad:
+            r = b["rec"]
+            if r["events"] < 0:
+                raise Infra("the daemon did not open its pipes for the target probe")
+            ctx.violation("Target/%s" % r["env"],
+                          "with NODE_NAME %s the built daemon wrote %d events for %d sshd lines with target hosts %s and machine "
+                          "ids %s; expected host %r and machine id %r" % (r["env"], r["events"], r["sent"], sorted(set(r["hosts"])),
+                                                                          sorted(set(r["mids"])), r["wanthost"], r["wantmid"]),
+                          {"kind": "daemon-target", "record": r})
     nscen = 0
     if prop == "C19":
         # the counter rule on every path of one line through the worker (SshdProc scripts: write failure, hand-off
@@ -201,7 +219,12 @@ def run(ctx, prop):
                               ret[0].get("ctr") if ret else "?", ret[0].get("ctrlabel") if ret else "?"),
                           {"kind": "sshdproc-scenario", "scenario": rr[0]["sc"], "pid": rr[0]["pid"], "line": rr[0]["line"],
                            "events": rr[1:]})
-    nself = selftest(ctx, tp, preds)
+    # the binding self-test needs well-behaved records to corrupt: its verdict is looked at after the violations
+    nself, self_err = 0, None
+    try:
+        nself = selftest(ctx, tp, preds)
+    except Infra as e:
+        self_err = e
     mine = [b for b in bad if b["what"] in preds]
     groups = collections.defaultdict(list)
     for b in mine:
@@ -220,6 +243,10 @@ def run(ctx, prop):
                       {"kind": "sshd-vector", "predicate": what, "pid": r["pid"], "line": r["line"], "pad": r["pad"],
                        "expected_event": r["event"], "expected_login": r["login"], "observed": r["direct"],
                        "observed_framed": r.get("framed"), "observed_stream": r.get("stream")})
+    if self_err is not None:
+        if not ctx.violations:
+            raise self_err
+        ctx.notes.append("binding self-test not conclusive on this tree: %s" % self_err)
     others = sorted({b["what"] for b in bad if b["what"] not in preds})
     if others:
         ctx.notes.append("predicates of other properties failed on these records: " + ", ".join(others))
